@@ -275,7 +275,6 @@ Proof.
     + destruct PA. rewrite V in *.
       destruct m; cbn in Hm; inversion Hm; subst; try (cbn in Ho; rewrite N.eqb_refl in Ho; discriminate);
         (constructor; rewrite ?V; nrm; vsimp; fin2).
-      Show.
     + others_pop i.
   - eapply (dir_pop_a i); try exact B; auto.
     + pose proof (d_ids _ _ _ _ _ B) as Hid.
@@ -288,4 +287,9 @@ Proof.
         cbn [accept_first close_last cw_last is_id is_open is_accept is_data is_incr is_cw is_close mid dataB incB] in *;
         rewrite ?N.eqb_refl in *; cbn [orb negb andb] in *;
         (constructor; rewrite ?V; nrm; vsimp; fin2).
-      Show.
+      * apply no_cw_last. match goal with Hc : negb _ && negb (has_cw i t) = true |- _ =>
+          apply andb_true_iff in Hc as [_ Hc]; now apply negb_true_iff in Hc end.
+      * apply no_any_order. match goal with Hc : negb (has_any i t) = true |- _ => now apply negb_true_iff in Hc end.
+    + others_pop i.
+Qed.
+End F.
